@@ -82,6 +82,11 @@ def theorem_names(path):
     return names
 
 
+# modules that state theorems ABOUT a property but sit above its module in the import graph (the abstract specification and
+# its refinement theorem import C03): built and audited together with the property module
+EXTRA_MODULES = {pid: ["CachedProofs.Spec.Refine"] for pid in ("C02", "C03", "C04", "C09")}
+
+
 def proof_check(pid, thorough):
     """Builds the property module, audits axioms of every theorem in it, scans sources. Returns dict."""
     res = {"ok": True, "obligations": [], "discharged": [], "problems": [], "axioms": {}, "wall": 0.0}
@@ -90,13 +95,18 @@ def proof_check(pid, thorough):
         res["ok"] = False
         res["problems"].append(f"no property module {prop_file}")
         return res
-    ok, out, dt = build_lean(["CachedModel", "cached_driver", f"CachedProofs.Properties.{pid}"])
+    extra_modules = EXTRA_MODULES.get(pid, [])
+    ok, out, dt = build_lean(["CachedModel", "cached_driver", f"CachedProofs.Properties.{pid}"] + extra_modules)
     res["wall"] += dt
     names = theorem_names(prop_file)
     # lemma modules the property imports (transitively, inside CachedProofs)
     lemma_files = []
     seen = set()
     stack = [prop_file]
+    for m in extra_modules:
+        p = os.path.join(LEAN, *m.split(".")) + ".lean"
+        if os.path.exists(p):
+            seen.add(p); lemma_files.append(p); stack.append(p)
     while stack:
         f = stack.pop()
         for m in re.finditer(r"^import\s+(CachedProofs\.[\w.]+)", open(f).read(), flags=re.M):
@@ -108,7 +118,7 @@ def proof_check(pid, thorough):
     lemma_names = [n for f in lemma_files for n in theorem_names(f)]
     res["obligations"] = names + lemma_names
     # property theorems stated in imported modules (Layer B files) carry the property id as their prefix
-    res["property_theorems"] = names + [n for n in lemma_names if (n.split(".")[-1].startswith(pid + "_") or (pid in ("C17", "C08") and n.split(".")[-1].startswith("G17_"))) and n not in names]
+    res["property_theorems"] = names + [n for n in lemma_names if (n.split(".")[-1].startswith(pid + "_") or (pid in ("C17", "C08") and n.split(".")[-1].startswith("G17_")) or (extra_modules and n.startswith("Cached.Spec."))) and n not in names]
     if not ok:
         res["ok"] = False
         err = "\n".join(l for l in out.splitlines() if "error" in l.lower())[:2000]
@@ -127,6 +137,8 @@ def proof_check(pid, thorough):
     audit = os.path.join(audit_dir, f"{pid}.lean")
     with open(audit, "w") as f:
         f.write(f"import CachedProofs.Properties.{pid}\n")
+        for m in extra_modules:
+            f.write(f"import {m}\n")
         for n in names + lemma_names:
             f.write(f"#print axioms {n}\n")
     with Lock(".lake.lock"):
